@@ -755,7 +755,7 @@ func (d *DataRow) getVirtualSubLMDValue(peer *Peer, col *Column) (val interface{
 func (d *DataRow) MatchFilter(filter *Filter, negate bool) bool {
 	// recursive group filter
 	groupOperator := filter.groupOperator
-	negate = negate || filter.negate
+	negate = negate != filter.negate
 
 	if negate {
 		// Inverse the operation if negate is done at the GroupOperator
